@@ -214,4 +214,97 @@ pub fn run(rep: &mut Rep) {
     }
     poster::verif::enable(false);
     let _ = rc::varint_len(1);
+    second_connection(rep, &reqs, idx);
+}
+
+/// The limit that counts is the one announced in the CONNACK of the *current* connection: the same Context is connected
+/// a second time (after end-of-stream; as a plain new connection, as an expired session, as a resumed session) and the
+/// CONNACK of the second connection announces another Maximum Packet Size, or none.
+fn second_connection(rep: &mut Rep, reqs: &[(String, OpSpec)], mut idx: u64) {
+    let chosen: Vec<&(String, OpSpec)> = reqs
+        .iter()
+        .filter(|(n, _)| ["ping", "disconnect", "disconnect-props", "pub0-100", "pub1-117", "pub2-130", "pub1-props", "sub-1", "unsub-2", "sub-up", "pub0-16384"].contains(&n.as_str()))
+        .collect();
+    rep.note(&format!("second connection of the same Context: {} requests x (M on the first connection, M on the second) in {{(L, L-1), (L-1, L), (L+7, L), (absent, L-1), (L-1, absent), (1, L), (L, absent)}} x reconnect mode {{plain, expired session, resumed session}}: the request on the second connection is judged by the second CONNACK alone", chosen.len()));
+    for (name, spec) in chosen {
+        let mut twin = session(rep.seed, None, Some(2));
+        let warm = twin.start_op(0, OpSpec::Publish(PubSpec::simple(0, "w", b"")));
+        twin.settle();
+        let _ = warm;
+        let w0 = twin.written_len();
+        twin.start_op(0, spec.clone());
+        twin.settle();
+        let twin_bytes: Vec<u8> = twin.writer.0.borrow().written[w0..].to_vec();
+        let l = twin_bytes.len() as u32;
+        if l < 2 {
+            continue;
+        }
+        let pairs: Vec<(Option<u32>, Option<u32>)> = vec![(Some(l), Some(l - 1)), (Some(l - 1), Some(l)), (Some(l + 7), Some(l)), (None, Some(l - 1)), (Some(l - 1), None), (Some(1), Some(l)), (Some(l), None)];
+        for (m1, m2) in pairs {
+            for mode in 0..3u8 {
+                let id = format!("second:{name}:{:?}:{:?}:{mode}", m1, m2);
+                idx += 1;
+                if !rep.take(idx, &id) {
+                    continue;
+                }
+                let mut sim = Sim::new(rep.seed);
+                let sei = if mode == 2 { Some(3600) } else { None };
+                sim.cmd(Cmd::Connect(ConnSpec { sei, ..Default::default() }));
+                sim.settle();
+                let props1: Vec<Prop> = m1.map(|m| vec![Prop::u32(39, m)]).unwrap_or_default();
+                sim.feed_packet(&SPacket::Connack { session_present: false, reason: 0, props: props1 });
+                sim.settle();
+                sim.cmd(Cmd::Run);
+                sim.settle();
+                sim.start_op(0, OpSpec::Publish(PubSpec::simple(0, "w", b"")));
+                sim.settle();
+                sim.set_eof();
+                sim.settle();
+                if sim.run_result().is_none() {
+                    viol(rep, "C12/harness/first-run-did-not-end".into(), &id, "run() still pending after end-of-stream".into(), &sim);
+                    continue;
+                }
+                if mode >= 1 {
+                    sim.cmd(Cmd::MarkDisconnected(5));
+                }
+                sim.new_transport();
+                sim.cmd(Cmd::Connect(ConnSpec { sei, ..Default::default() }));
+                sim.settle();
+                let props2: Vec<Prop> = m2.map(|m| vec![Prop::u32(39, m)]).unwrap_or_default();
+                sim.feed_packet(&SPacket::Connack { session_present: mode == 2, reason: 0, props: props2 });
+                sim.settle();
+                sim.cmd(Cmd::Run);
+                sim.settle();
+                let w0 = sim.written_len();
+                let op = sim.start_op(0, spec.clone());
+                sim.settle();
+                let wrote = sim.written_len() - w0;
+                let out = sim.ops[op].out.clone();
+                let kind = spec.kind();
+                rep.add("evaluations", 1);
+                rep.add("second_connection_cases", 1);
+                rep.distinct(&("second", name, m1, m2, mode));
+                for p in sim.panics.clone() {
+                    viol(rep, format!("C12/panic/{p}"), &id, format!("panic: {p}"), &sim);
+                }
+                let must_refuse = m2.map(|m| l > m).unwrap_or(false);
+                if must_refuse {
+                    let refused = matches!(out.as_ref().and_then(|o| o.err()), Some(ErrSum::MaximumPacketSizeExceeded));
+                    if wrote != 0 {
+                        viol(rep, format!("C12/second-connection/oversized-packet-written/{kind}"), &id, format!("second CONNACK announced M = {:?} (the first {:?}); L = {l} but {wrote} bytes were written", m2, m1), &sim);
+                    }
+                    if !refused {
+                        viol(rep, format!("C12/second-connection/oversized-not-refused/{kind}"), &id, format!("second CONNACK announced M = {:?} (the first {:?}); L = {l}: result {:?}", m2, m1, out.as_ref().map(|o| o.brief())), &sim);
+                    }
+                } else {
+                    let got: Vec<u8> = sim.writer.0.borrow().written[w0..].to_vec();
+                    if got != twin_bytes {
+                        viol(rep, format!("C12/second-connection/fitting-packet-not-written-in-full/{kind}"), &id, format!("second CONNACK announced M = {:?} (the first {:?}); L = {l}: {wrote} bytes written, result {:?}", m2, m1, out.as_ref().map(|o| o.brief())), &sim);
+                    } else {
+                        rep.sample(|| format!("{id}: judged by the second CONNACK, written in full"));
+                    }
+                }
+            }
+        }
+    }
 }
